@@ -246,6 +246,8 @@ class Gen:
         out = []
         for _ in range(n):
             key = ch.choice(KV_KEYS) if ch.chance(5, 6) else self.string(multiline=False, empty=False)[0]
+            if key.startswith("__") and key.endswith("__"):
+                key = "k" + key   # keys of the form __name__ are reserved for hidden bookkeeping (never printed by design)
             out.append([key, self.string()[0]])
         return out
 
